@@ -7,7 +7,7 @@ from typing import Dict, List, Optional, Set, Tuple
 
 from .report import Ctx
 from .srcmodel import AnalysisError, ScopeNode, call_leaf, call_name, calls_in, contains, dotted, enclosing_function, qualname, src, walk_local
-from .util import enclosing_trys, guard_chain, root_name
+from .util import enclosing_trys, guard_chain, root_name  # noqa: F401
 
 CHDIR_OWNERS = {
     "_util:change_to_path_dir": "the one context manager that runs code in a config file's directory",
@@ -119,6 +119,47 @@ def check_global_state_restore(ctx: Ctx, rule: str) -> None:
         reach = g.reachable(starts, removed=g.cn(restore), include_srcs=True)
         ok = ok and g.exit not in reach and g.xexit not in reach
     ctx.oblige(rule, ok, patch[0] if patch else pn, "argparse.Namespace is restored to the saved class on every path out of patch_namespace" if ok else "patch_namespace can leave argparse.Namespace replaced", fn=pn)
+
+
+def check_recreate_branches(ctx: Ctx, rule: str) -> set:
+    """recreate_branches rebuilds Namespace / dict / list levels recursively and unconditionally
+    (every nested value goes through the recursive call, empty branches included).  Returns the kinds copied."""
+    rb = ctx.func("_namespace:recreate_branches")
+    kinds = set()
+    uncond = True
+    for n_ in walk_local(rb):
+        if not isinstance(n_, ast.If):
+            continue
+        for c_ in [x for x in ast.walk(n_.test) if isinstance(x, ast.Call) and call_leaf(x) == "isinstance" and root_name(x.args[0]) == "data"]:
+            pos_types = [dotted(e) for e in (c_.args[1].elts if isinstance(c_.args[1], ast.Tuple) else [c_.args[1]])]
+            negated = any(isinstance(u, ast.UnaryOp) and isinstance(u.op, ast.Not) and u.operand is c_ for u in ast.walk(n_.test))
+            if negated:
+                continue
+            assigns_new = [b for b in n_.body if isinstance(b, ast.Assign) and root_name(b.targets[0]) == "new_data"]
+            # mapping kinds: new_data = type(data)(); for ...: new_data[key] = recreate_branches(val, ...)
+            item_stores = [s for b in n_.body for s in ast.walk(b) if isinstance(s, ast.Assign) and isinstance(s.targets[0], ast.Subscript) and root_name(s.targets[0].value) == "new_data"]
+            if assigns_new and any("type(data)()" in ast.unparse(a.value) for a in assigns_new) and item_stores:
+                good = all(isinstance(s.value, ast.Call) and call_leaf(s.value) == "recreate_branches" and s.value.args and isinstance(s.value.args[0], ast.Name) for s in item_stores)
+                for s in item_stores:
+                    for t, pol in guard_chain(s, stop=n_):
+                        if "skip_keys" not in ast.unparse(t):
+                            good = False
+                if good:
+                    kinds |= set(pos_types)
+                else:
+                    uncond = False
+            # list kind: new_data = [recreate_branches(v, ...) for v in data]
+            for a in assigns_new:
+                v = a.value
+                if isinstance(v, ast.ListComp):
+                    if isinstance(v.elt, ast.Call) and call_leaf(v.elt) == "recreate_branches" and not any(g.ifs for g in v.generators):
+                        kinds |= set(pos_types)
+                    else:
+                        uncond = False
+    rets = [r for r in walk_local(rb) if isinstance(r, ast.Return)]
+    ok = {"Namespace", "dict", "list"} <= kinds and uncond and all(root_name(r.value) == "new_data" for r in rets)
+    ctx.oblige(rule, ok, rb, f"recreate_branches rebuilds {sorted(kinds)} recursively, every nested value (empty branches included) through the recursive call" if ok else f"recreate_branches does not copy every Namespace / dict / list level unconditionally (copies {sorted(kinds)}, unconditional: {uncond}): clone()/strip_meta() hand out containers shared with the original", fn=rb, construct="recreate_branches copy kinds")
+    return kinds
 
 
 def contextvar_table(repo) -> Dict[str, Tuple[str, Optional[ast.AST]]]:
